@@ -119,8 +119,14 @@ Definition run_until (i : tree) : tree :=
   let s1 := run_reader fuel (sys0 cap 10 (kind =? 0) false false (done_packets nfed)) in
   let s2 := if conn_mode mode then set_conn_done s1 else s1 in
   let cb := if cbkind =? 0 then None else if cbkind =? 1 then Some 0 else Some 2 in
-  let '(seen, u) := until_done (S (Z.to_nat nfed) + 2) (nstate_of s2 (negb (conn_mode mode)))
-                               (fun p => fin && (p =? nfed - 1)) cb [] false in
+  let ns := nstate_of s2 (negb (conn_mode mode)) in
+  let isfinal := fun p => fin && (p =? nfed - 1) in
+  if 3 <=? cbkind then
+    (* a callback that fails at its 1st (cbkind 3) / 2nd (cbkind 4) package *)
+    let '(seen, r) := until_fail (S (2 * Z.to_nat nfed) + 2) ns isfinal (cbkind - 2) [] in
+    TL [TL (map TI seen); match r with FCbErr => TL [TI 7] | FEnd u => ures_tree u end]
+  else
+  let '(seen, u) := until_done (S (Z.to_nat nfed) + 2) ns isfinal cb [] false in
   TL [TL (map TI seen); ures_tree u].
 
 Fixpoint is_prefix_z (a b : list Z) : bool :=
@@ -137,7 +143,7 @@ Definition sp_until (i o : tree) : bool :=
   let seen := map t_int (t_list (t_nth 0 o)) in
   let c := t_int (t_nth 0 (t_nth 1 o)) in
   is_prefix_z seen (zseq nfed) &&
-  ((c =? 1) || (c =? 5) || (c =? 6) ||
+  ((c =? 1) || (c =? 5) || (c =? 6) || ((c =? 7) && (3 <=? t_int (t_nth 5 i))) ||
    ((c =? 0) && existsb (fun p => p =? t_int (t_nth 1 (t_nth 1 o))) seen)).
 
 (* ------------------------------------------------------------------ fn 4: sending with a cancelled context *)
@@ -248,7 +254,7 @@ Definition run_close_race (i : tree) : tree :=
 Definition sp_close_race (i o : tree) : bool := t_bool (t_nth 5 i).
 
 (* ------------------------------------------------------------------ fn 7: Conn.Close *)
-(* input (nchan cap (nqueued ...) peer transport nfail zeroclosed) output (returned (closed ...) transport-closed reader-ended goroutines-ok) *)
+(* input (nchan cap (nqueued ...) peer transport nfail zeroclosed precancel) output (returned (closed ...) transport-closed reader-ended goroutines-ok) *)
 Definition run_conn_close (i : tree) : tree :=
   let nchan := t_int (t_nth 0 i) in
   let cap := t_int (t_nth 1 i) in
@@ -257,6 +263,7 @@ Definition run_conn_close (i : tree) : tree :=
   let transport := t_int (t_nth 4 i) in
   let nfail := t_int (t_nth 5 i) in
   let zc := t_bool (t_nth 6 i) in
+  let precancel := t_bool (t_nth 7 i) in
   let has0 := (0 <? nchan) && negb zc in
   let nq0 := if has0 then nth 0 nq 0 else 0 in
   let base := sys0 cap 10 true true (has0 && (nq0 =? 0)) (done_packets nq0) in
@@ -266,7 +273,9 @@ Definition run_conn_close (i : tree) : tree :=
   let s1 := run_reader fuel s0 in
   let s2 := if transport =? 1 then set_tfail s1
             else if transport =? 2 then add_incoming s1 (map (fun _ => RinFail) (zseq nfail)) else s1 in
-  let s3 := run_all fuel (run_reader fuel s2) in
+  let s2c := run_reader fuel s2 in
+  (* the connection context was cancelled before Close is called *)
+  let s3 := run_all fuel (if precancel then set_conn_done s2c else s2c) in
   TL [of_bool (closer_done s3);
       TL (map (fun _ => TI 2) (zseq nchan));
       of_bool (tclosed s3); of_bool (reader_ended s3); of_bool (reader_ended s3)].
